@@ -542,6 +542,15 @@ def gen_drawsites(repo):
     out.append("/-- (file, enclosing fn, assigned variable, size constant) of every `bn_rand(CONST)` site -/\ndef drawSites : List (String × String × String × String) := [\n")
     out.append(",\n".join('  ("%s", "%s", "%s", "%s")' % s for s in sorted(set(sites))))
     out.append("]\n")
+    # pairing-side randomisers: every field of the two parameter lists is its own `GroupOrderElement::new()`
+    prv = strip_comments(open(os.path.join(repo, "src/prover.rs")).read())
+    for fn, lname in (("_gen_c_list_params", "nrCListFresh"), ("_gen_tau_list_params", "nrTauFresh")):
+        f = find_fn(prv, fn)
+        names = []
+        if f:
+            for m in re.finditer(r"(?:let\s+(\w+)\s*=|\b(\w+)\s*:)\s*GroupOrderElement::new\(\)\s*\?\s*[;,]", f[1]):
+                names.append(m.group(1) or m.group(2))
+        out.append("\n/-- variables of `%s` assigned a FRESH `GroupOrderElement::new()` (a copy of another variable is not listed) -/\ndef %s : List String := [%s]\n" % (fn, lname, ", ".join('"%s"' % n for n in names)))
     out.append(FOOTER)
     return "".join(out)
 
